@@ -906,6 +906,64 @@ def gen_update(g, op=None):
     return _case(op, "update", desc, ins, [e_out], kw, kinds=kinds, tags=tags | tags_of(ins + [e_out]) | {f"coords-{ncoord}"})
 
 
+def ellipsify(g, case):
+    """Replace one named axis by an ellipsis `x...` (0-3 repetitions) everywhere it occurs."""
+    rng = g.rng
+    if case["family"] not in ("elementwise", "reduce", "preserve", "dot"):
+        return case
+    exprs = list(case["ins"]) + list(case["outs"])
+    names = sorted({l.name for e in exprs for l, _ in leaves(e) if isinstance(l, Ax)})
+    if not names or any(isinstance(x, Ell) for e in exprs for x in _walk_items(e)):
+        return case
+    x = rng.choice(names)
+    marked = any(b for e in exprs for l, b in leaves(e) if isinstance(l, Ax) and l.name == x)
+    if case["op"] in ("sort", "argsort") and marked:
+        return case
+    if "diagonal" in case["tags"] or "repeated-name" in case["tags"]:
+        return case
+    n = rng.choice([0, 1, 2, 2, 3])
+    sizes = [rng.choice([1, 2, 2, 3] if n <= 2 else [1, 2]) for _ in range(n)]
+    if case["op"] == "roll" and marked and not isinstance(case["opts"].get("shift"), int):
+        return case
+    anon = rng.random() < 0.25
+    ell = Ell(Ax(x, 0), n, tuple(((x, sz),) for sz in sizes), anon=anon)
+
+    def rep(items):
+        out = []
+        for it in items:
+            if isinstance(it, Ax) and it.name == x:
+                out.append(ell)
+            elif isinstance(it, Grp):
+                out.append(Grp(rep(it.items)))
+            elif isinstance(it, Brk):
+                out.append(Brk(rep(it.items)))
+            else:
+                out.append(it)
+        return tuple(out)
+
+    ins = [rep(e) for e in case["ins"]]
+    outs = [rep(e) for e in case["outs"]]
+    try:
+        kw = make_kwargs(rng, ins, outs)
+    except ValueError:
+        return case
+    kw = {k: v for k, v in kw.items()}
+    tags = set(case["tags"]) | tags_of(ins + outs)
+    new = _case(case["op"], case["family"], render(ins, outs, case["form"]), ins, outs, kw, opts=case["opts"], kinds=case["kinds"], tags=tags)
+    return new
+
+
+def _walk_items(items):
+    for it in items:
+        yield it
+        if isinstance(it, (Grp, Brk)):
+            yield from _walk_items(it.items)
+        elif isinstance(it, Cat):
+            yield from _walk_items(it.parts)
+        elif isinstance(it, Ell):
+            yield from _walk_items((it.item,))
+
+
 GENERATORS = {
     "id": gen_id,
     "elementwise": gen_elementwise,
@@ -927,6 +985,8 @@ def generate(family, n, seed, tier="quick"):
         tries += 1
         try:
             c = GENERATORS[family](g)
+            if g.rng.random() < 0.2:
+                c = ellipsify(g, c)
         except (IndexError, ValueError):
             continue
         if not case_ok(c, g.b):
